@@ -116,6 +116,39 @@ proof! {
     }
 }
 
+/// Digit floods: placement fields made of digits and '/' only, up to 48 bytes — long enough for the
+/// empty-square counter to pass 255 (thirty-two '8's, seven '/', seven more digits).
+proof! {
+    fn fen_placement_digit_flood_le48() {
+        let bytes: [u8; 48] = kani::any();
+        let len: usize = kani::any();
+        kani::assume(len >= 15 && len <= 48);
+        let mut slashes = 0u32;
+        let mut prev_slash = true;
+        let mut ok = true;
+        let mut i = 0;
+        while i < 48 {
+            if i < len {
+                let b = bytes[i];
+                let is_slash = b == b'/';
+                ok = ok && (is_slash || (b >= b'1' && b <= b'8'));
+                if is_slash {
+                    ok = ok && !prev_slash;
+                    slashes += 1;
+                }
+                prev_slash = is_slash;
+            }
+            i += 1;
+        }
+        kani::assume(ok && slashes == 7 && !prev_slash);
+        show("c14 fen_placement_digit_flood_le48", &bytes[..len]);
+        let s = std::str::from_utf8(&bytes[..len]).unwrap();
+        let r = weechess_core::notation::verif_board_try_parse(s);
+        kani::cover!(r.is_ok() && len == 15, "eight ranks of one digit each");
+        kani::cover!(len == 48, "longest flood");
+    }
+}
+
 proof! {
     fn fen_castle_field() {
         let bytes: [u8; 4] = kani::any();
